@@ -9,10 +9,15 @@ IMPORTS = ['Cli.Comment', 'Cli.Cli', 'Cli.RunCli']
 from lib.pyrepr_check import cps as _cps, g_cps as _g_cps, printable_table as _printable_table
 THEOREMS = ['C19_comment_every_line', 'C19_comment_lines_content', 'C19_strip_comment_lines',
             'C19_debug_only_comments', 'C19_cli_equals_library', 'C19_sources_as_on_disk',
-            'C19_cli_first_failure', 'C19_exit_status', 'C19_missing_source']
+            'C19_cli_first_failure', 'C19_exit_status', 'C19_missing_source',
+            'C19_library_text_clean', 'C19_debug_only_comments_compiler', 'C19_cli_equals_compile_text',
+            'C19_cli_equals_compile_text_debug', 'C19_cli_first_failure_compiler', 'C19_exit_status_compiler']
 RULE = ('cli cases: the real command line (python -m yldprolog.compiler, one subprocess per run) on 1-3 sources '
         '(files and/or `-`) under all 16 combinations of -d/--debug-parser/--debug-generator/--debug-filename, to stdout '
-        'and to -o; comment/strip cases: the text functions on generated messages. Non-trivial: a cli case in which '
+        'and to -o, compared with the model command line (Cli/Cli.v) running over the model compiler (compile_text) evaluated in Coq '
+        'on the same texts: which texts compile, exit status, kind of ending, error message, stdout and output file (exactly, or '
+        'after removing comment lines for runs with parser/generator debugging); comment/strip cases: the text functions on generated '
+        'messages. Non-trivial: a cli case in which '
         'some source contains a quoted atom with a line-break character of str.splitlines or non-ASCII text (so that debug '
         'messages carry it), or in which a source fails to compile; a comment case whose message contains at least two '
         'different kinds of line boundary. Distinct by hash of the case.')
@@ -21,8 +26,11 @@ TRUSTED_BASE = [
     'no axioms: all C19 theorems are closed under the global context',
     'hand-written model Cli/Comment.v (comment_lines, str.splitlines, tokenizer lines, strip) and Cli/Cli.v (main, '
     '_set_debug_options, _open_output_file, _open_input_file, generate header); tied to /repo by this differential run',
-    'the library compiler and the debug messages are universally quantified in the theorems; in the correspondence the '
-    'compiler is instantiated with the table of what compile_prolog_from_string returns for the texts of the case',
+    'the debug messages are universally quantified in the theorems; the library compiler is universally quantified in the first '
+    'group of theorems and is the model compiler Comp/CompileText.v compile_text (shared with C11/C12/C18) in the second; in the '
+    'correspondence the model command line runs over compile_text evaluated in Coq on the texts of the case; from the '
+    'implementation\'s library only: with which exception (CompilerError line/column/message, or another one) a refused text is refused',
+    'str.isprintable of the non-ASCII code points of a case is read from the host Python (the `printable` parameter of the model)',
     'harness: generators, subprocess driver, parser of printed observations; the harness function that removes comment '
     'lines is itself compared with the model function `strip` on every strip case',
     'modelled, not verified: click option parsing and exit statuses (ClickException 1, usage error 2, uncaught exception 1), '
@@ -33,6 +41,8 @@ ASSUMPTIONS = ['the output file is not read back as a later source while output 
                'overlap is: the output file is also the FIRST source, which open(fn,"w") has emptied before it is read)',
                'debug messages contain object addresses, so runs with parser/generator debugging are compared after '
                'removing comment lines; runs with --debug-filename only are compared exactly',
+               'the message of a `program too large` error quotes CPython\'s SyntaxError with the file name given to compile() and a '
+               'line number of the generated text; both are dropped before messages are compared',
                'a message with U+0000 gives a comment line that CPython refuses to load (source code cannot contain null '
                'bytes): the `output parses` oracle skips outputs that contain U+0000 in a comment']
 CASE_TIMEOUT = 300
@@ -169,7 +179,7 @@ def gen_cli_case(rng, g):
             'outfile': outfile, 'modesalt': rng.randrange(2), 'combos': 'all'}
 
 def gen(rng, tier):
-    ncli, ntext = (36, 500) if tier == 'quick' else (240, 4000)
+    ncli, ntext = (28, 400) if tier == 'quick' else (240, 4000)
     g = Gen(rng, special=0.3)
     cli = [gen_cli_case(rng, g) for _ in range(ncli)]
     if tier == 'quick':
